@@ -15,6 +15,7 @@ type Options struct {
 	Enums       bool // literals with {enum: @e0} (strings "ab","cd") / {enum: @e1} (integers 1,2,3); the caller registers the rules
 	OrContainer bool // rarely: `{} // {or: [{type: "object"}, {type: "string"}]}` / `[] // {or: […]}`
 	StringRules bool // string key types with regex / minLength
+	ManyKeys    bool // key shortcuts in every 4th object instead of every 8th, 25 % of them with a key type of any sort
 }
 
 // EnumRules: the enum rules the generated texts may mention (Options.Enums).
@@ -172,8 +173,12 @@ func (g *gen) object(depth int) *tg.Node {
 		p.Val.Optional = g.r.Intn(10) < 3
 		n.Props = append(n.Props, p)
 	}
-	if g.r.Intn(8) == 0 {
-		if k, ok := g.pickSort(sStr, 12, false); ok {
+	oneIn, anyP := 8, 12
+	if g.opts.ManyKeys {
+		oneIn, anyP = 4, 25
+	}
+	if g.r.Intn(oneIn) == 0 {
+		if k, ok := g.pickSort(sStr, anyP, false); ok {
 			p := tg.Prop{Key: k, Shortcut: true, Val: g.value(depth)}
 			p.Val.Optional = g.r.Intn(10) < 3
 			at := g.r.Intn(len(n.Props) + 1)
